@@ -150,6 +150,29 @@ var unknownTypes = []uint32{1, 2, 4, 5, 6, 7, 9, 10, 12, 13, 15, 17, 19, 41, 43,
 
 func genDagazF(t *rapid.T, n int, extents bool) []uint32 {
 	f := make([]uint32, 0, n)
+	if extents && uni(t, "inside_initial_cell", 4) == 0 {
+		// a small plane that lies wholly inside the cell a fresh grid starts with ([0,2[ on every
+		// axis): storing it never grows (re-allocates) the grid
+		for i := 0; i < n; i++ {
+			v := float32(30+uni(t, "cell_coord", 141)) / 100
+			if i%6 >= 3 {
+				v = float32(5+uni(t, "cell_ext", 21)) / 100
+			}
+			f = append(f, math.Float32bits(v))
+		}
+		return f
+	}
+	if !extents && n == 6 && uni(t, "around_initial_cell", 4) == 0 {
+		// a box (or oblique ray) that spans the initial cell
+		for i := 0; i < 6; i++ {
+			v := -float32(uni(t, "box_lo", 60)) / 100
+			if i >= 3 {
+				v = 2 + float32(uni(t, "box_hi", 100))/100
+			}
+			f = append(f, math.Float32bits(v))
+		}
+		return f
+	}
 	for i := 0; i < n; i++ {
 		var v float32
 		if extents && i%6 >= 3 {
